@@ -220,10 +220,11 @@ def expected_doc(case):
             for m in x["methods"].split(","):
                 o = {"query": props(x["params"]), "headers": [], "request": None, "responses": [],
                      "summary": x.get("summary", ""), "description": x.get("desc", ""), "operationId": x.get("id", ""),
-                     "tags": [t for t in x.get("tags", "").split(",") if t], "request_desc": "", "resp_desc": {}}
+                     "tags": [t for t in x.get("tags", "").split(",") if t], "request_desc": "", "request_desc_alt": {""}, "resp_desc": {}, "resp_desc_alt": {}}
                 if x["domain"]:
                     dm = x["domain"][0]
                     o["request_desc"] = dm.get("desc", "")
+                    o["request_desc_alt"] = {dm.get("sdesc", ""), dm.get("sdesc2", "")}
                     o["headers"] = props(dm["headers"])
                     if dm["body"]:
                         o["request"] = [(dm["media"] or "application/json", norm_sch(dm["body"][0]))]
@@ -232,6 +233,10 @@ def expected_doc(case):
                     hd = props(c["headers"])
                     if c.get("desc"):
                         o["resp_desc"][key] = c["desc"]          # the last content of a status that has a description
+                        o["resp_desc_alt"].pop(key, None)
+                    elif c.get("sdesc") or c.get("sdesc2"):
+                        # copied from an inline schema, or not (recursion point); for a bare reference the description reaching it
+                        o["resp_desc_alt"].setdefault(key, set()).update(x for x in (c.get("sdesc"), c.get("sdesc2")) if x)
                     if c["body"]:
                         o["responses"].append((key, c["media"] or "application/json", norm_sch(c["body"][0]), hd))
                     else:
@@ -315,13 +320,13 @@ def compare_docs(exp, real):
                     out.append(("operation-description-differs", "%s %s: description expected %r, document %r" % (m, pat, eo.get("description"), ro.get("description"))))
                 if list(eo.get("tags") or []) != list(ro.get("tags") or []):
                     out.append(("tags-differ", "%s %s: tags expected %r, document %r" % (m, pat, eo.get("tags"), ro.get("tags"))))
-                if eo.get("request") and (eo.get("request_desc") or "") != (ro.get("request_desc") or ""):
+                if eo.get("request") and (ro.get("request_desc") or "") not in ({eo.get("request_desc") or ""} | (set(eo.get("request_desc_alt") or [""]) if not eo.get("request_desc") else set())):
                     out.append(("request-description-differs", "%s %s: request body description expected %r, document %r" % (m, pat, eo.get("request_desc"), ro.get("request_desc"))))
                 for k_, want_d in (eo.get("resp_desc") or {}).items():
                     if k_ in (ro.get("resp_desc") or {}) and ro["resp_desc"][k_] != want_d:
                         out.append(("response-description-differs", "%s %s %s: description expected %r, document %r" % (m, pat, k_, want_d, ro["resp_desc"][k_])))
                 for k_, got_d in (ro.get("resp_desc") or {}).items():
-                    if got_d and k_ not in (eo.get("resp_desc") or {}):
+                    if got_d and k_ not in (eo.get("resp_desc") or {}) and got_d not in (eo.get("resp_desc_alt") or {}).get(k_, set()):
                         out.append(("response-description-undeclared", "%s %s %s: description %r is not declared" % (m, pat, k_, got_d)))
                 # a response of the document is keyed by status; its content by media type.  A declared content with a body
                 # must be there under (status, media); a declared content without a body only requires the status.  Headers
